@@ -1,7 +1,7 @@
 """C16 configuration for ./check"""
 CONF = {
     'coq_sample': 25,   # cases re-evaluated inside Coq by vm_compute against the extracted runner's output
-    'interesting': ['timeout-retry', 'temp-error-retry', 'terminal-error', 'cancel-mid-send', 'buffer-full', 'zero-copy', 'concat', 'option-flip'],
+    'interesting': ['context-ends-not-by-cancel', 'timeout-retry', 'temp-error-retry', 'terminal-error', 'cancel-mid-send', 'buffer-full', 'zero-copy', 'concat', 'option-flip'],
     'rule': ('A case = a data-source history (packets with capture info, 16 kinds of error values: timeout-class, '
              'transient, end-of-input, wrapped ones; plain / zero-copy buffer-reusing / concatenated sources; NoCopy on/off) '
              'plus a harness script (next, start, restart, grant:n, grantall, recv:n, cancel, fin, fcan:n). The scripted '
